@@ -285,3 +285,22 @@ package httpgrpc
 //@   assert_call[C01] encoding.Codec.Unmarshal : into_the_callers_response: arg2 == resp
 //@   blocking_escape[C05,C04] ctx
 //@   modifies everything
+//
+//@ func newClientStream
+//@   ensures[C05,C01] result != nil && fresh(result) && result.ctx == ctx && result.copts == copts && result.baseUrl == baseUrl && result.w == w && result.respStream == recvStream && result.codec == registered_codec("proto")
+//@   ensures[C05] ready_armed_once_and_channel_open: wg_count(&result.ready) == 1 && result.rCh != nil && !closed(result.rCh) && !held(&result.rMu) && !result.done
+//@   ensures[C20,C05] unbuffered_delivery_channel: chcap(result.rCh) == 0
+//@   modifies nothing
+//
+//@ func (*Channel).NewStream
+//@   assert_call[C12] path.Join : base_path_then_method: len(arg0) == 2 && arg0[0] == ch.BaseURL.Path && arg0[1] == methodName
+//@   assert_call[C13] internal.ApplyPerRPCCreds : credentials_checked_against_the_url_scheme: arg0 == ctx$entry && arg1 == lastresult("internal.GetCallOptions") && arg2 == lastresult("(*url.URL).String") && (arg3 <==> reqUrl.Scheme == "https") && reqUrl.Scheme == old(ch.BaseURL.Scheme)
+//@   ensures[C13] credential_failure_sends_nothing: called("internal.ApplyPerRPCCreds") && lastresult("internal.ApplyPerRPCCreds", 1) != nil ==> result1 == lastresult("internal.ApplyPerRPCCreds", 1) && result0 == nil && !called("go") && !called("context.WithCancel")
+//@   assert_call[C04] context.WithCancel : child_of_the_credentialed_context: arg0 == lastresult("internal.ApplyPerRPCCreds", 0)
+//@   assert_call[C13,C03,C09] headersFromContext : from_the_call_context: arg0 == lastresult("context.WithCancel", 0)
+//@   assert_call[C12,C01] http.NewRequest : post_to_the_joined_url: arg0 == "POST" && arg1 == lastresult("(*url.URL).String")
+//@   ensures[C05] request_error_cancels_and_spawns_nothing: called("http.NewRequest") && lastresult("http.NewRequest", 1) != nil ==> calls("context.CancelFunc") == 1 && !called("go") && result0 == nil && result1 == lastresult("http.NewRequest", 1)
+//@   assert_call[C05,C04,C13] newClientStream : stream_owns_the_call_context_and_options: arg0 == lastresult("context.WithCancel", 0) && arg1 == lastresult("context.WithCancel", 1) && arg2 == boxed(lastresult("io.Pipe", 1)) && arg3 == desc.ServerStreams && arg4 == lastresult("internal.GetCallOptions") && arg5 == ch.BaseURL
+//@   ensures[C05,C01] exactly_one_reader_goroutine_per_stream: result1 == nil ==> calls("go") == 1 && result0 != nil
+//@   assert_call[C05,C04,C12] go:(*clientStream).doHttpCall : the_stream_reader_with_this_request: arg0 == lastresult(newClientStream) && arg1 == ch.Transport && arg2 == lastresult("http.NewRequest", 0) && arg3 == lastresult("io.Pipe", 0)
+//@   modifies everything
